@@ -91,7 +91,7 @@ class References:
                                     version = "gfa1",
                                     virtual = True)
         s.connect(self._gfa)
-      sn_with_o.line = s
+      sn_with_o._set_line(s)
       s._add_reference(self, "paths")
 
   def _backreference_keys(self, ref, key_in_ref):
